@@ -364,6 +364,9 @@ pub fn msg_class(m: &str) -> String {
 		format!("Result::unwrap() on Err {}", id)
 	} else if n.starts_with("called `Option::unwrap()` on a `None` value") {
 		"Option::unwrap() on None".to_owned()
+	} else if n.contains("is not a char boundary") {
+		// the character and its offsets are properties of the input, not of the defect
+		"str index not a char boundary".to_owned()
 	} else if n.starts_with("`at` split index") {
 		"split_off index out of range".to_owned()
 	} else {
